@@ -1,9 +1,69 @@
-(* C09 - files needed by retained checkpoints or live tables are never deleted. Statements only; proofs in Proofs/C09_*.v *)
+(* C09 - files needed by retained checkpoints or live tables are never deleted.
+   Statements only; proofs in Proofs/C09_Gc.v. The world model (Model/Gc.v) has one shared file system, several database
+   objects with their heaps of table objects, and OGc = collection of every unreachable table object. *)
 From Coq Require Import List NArith Bool.
 Import ListNotations.
-From RV Require Import Base.Bytes Model.Ckpt Model.Gc.
+From RV Require Import Base.Bytes Model.Ckpt Model.Gc Proofs.C09_Gc.
 Open Scope N_scope.
 
-Theorem fs_put_has : forall f n c, fs_has (fs_put f n c) n = true.
-Proof. intros. unfold fs_has, fs_put. cbn [fs_get]. destruct n as [[a b] c0]. unfold fname_eqb. rewrite !N.eqb_refl. reflexivity. Qed.
-Print Assumptions fs_put_has.
+(* retained_files_exist at full strength: in every reachable state, every file referenced by the persisted document of a
+   completed handle that no retention update dropped exists. FALSE of the faithful model (finding D11): after ODrop of the
+   object that created a checkpoint's tables, a collection deletes them although the document is still retained. *)
+Definition retained_files_exist_full_statement : Prop :=
+  forall ops id, (forall d ids, In (ORetain d ids) ops -> In id ids) ->
+    handle_dir (run (init_world 60 1000) ops) id <> None -> handle_files_exist (run (init_world 60 1000) ops) id = true.
+
+Theorem retained_files_exist_refuted :
+  let w := run (init_world 60 1000) d11_history in
+  handle_dir w 1 = Some 0 /\ handle_files_exist w 1 = false /\
+  handle_files_exist (run (init_world 60 1000) (firstn 12 d11_history)) 1 = true.
+Proof. exact C09_Gc.retained_files_exist_refuted. Qed.
+Print Assumptions retained_files_exist_refuted.
+
+(* the same history with a crash instead of the same-process drop keeps every file: the class of D11 is exactly the drop *)
+Theorem crash_keeps_files :
+  handle_files_exist (run (init_world 60 1000) (firstn 11 d11_history ++ [OCrash 0; OGc])) 1 = true.
+Proof. exact crash_instead_of_drop_keeps_files. Qed.
+Print Assumptions crash_keeps_files.
+
+(* retained_files_exist_partial - the step facts the invariant consists of (the induction over whole histories outside the
+   D11 class is NOT proved; it is what the correspondence check tests on every run, codes 100/101/103): *)
+
+(* 1. a collection never deletes a file the collecting object can still reach (current level set, retained and pending
+      checkpoints, tables held by a flush or compaction between write and swap) *)
+Theorem retained_files_exist_partial_own_reachable : forall w x n, In n (gc_one w x) -> ~ In n (reachable_names x).
+Proof. exact gc_spares_own_reachable. Qed.
+Print Assumptions retained_files_exist_partial_own_reachable.
+
+(* 2. an erroring / unreachable neighbour means keep *)
+Theorem neighbour_error_means_keep : forall w x o lo hi,
+  o_fromdoc o = true -> x_own x = OwnRange lo hi -> ((lo <=? o_lo o) && (o_hi o + 1 <=? hi) = false) ->
+  x_nb x = NbErr -> cleanup_deletes w x o = false.
+Proof. exact neighbour_error_keeps. Qed.
+Print Assumptions neighbour_error_means_keep.
+
+(* 3. a live neighbour that references the table in any checkpoint of its list - loaded or taken by itself - keeps it *)
+Theorem neighbour_need_means_keep : forall w x o lo hi y,
+  o_fromdoc o = true -> x_own x = OwnRange lo hi -> ((lo <=? o_lo o) && (o_hi o + 1 <=? hi) = false) ->
+  x_nb x = NbLive -> In y (g_dbs w) -> is_live y = true -> needs_table y (o_name o) = true ->
+  cleanup_deletes w x o = false.
+Proof. exact neighbour_needs_keeps. Qed.
+Print Assumptions neighbour_need_means_keep.
+
+Theorem needs_table_covers_own_checkpoints : forall x c t, In c (x_ckpts x) -> In t (c_tabs c) -> needs_table x (t_name t) = true.
+Proof. exact needs_table_own_checkpoint. Qed.
+Print Assumptions needs_table_covers_own_checkpoints.
+
+(* 4. a crashed process runs no cleanup *)
+Theorem crashed_objects_delete_nothing : forall w f done dels x,
+  x_state x = Crashed -> gc_db w (f, done, dels) x = (f, done ++ [x], dels).
+Proof. exact C09_Gc.crashed_objects_delete_nothing. Qed.
+Print Assumptions crashed_objects_delete_nothing.
+
+(* dropped_wals_removed: once the retention update has been saved, the WAL file of every checkpoint it dropped is gone
+   (a checkpoint is dropped when its id is neither listed nor newer than every listed id) *)
+Theorem dropped_wals_removed : forall w d ids x c,
+  get_db w d = Some x -> In c (x_ckpts x) -> retain_keeps ids c = false ->
+  fs_has (g_fs (step w (ORetain d ids))) (c_wal c) = false.
+Proof. exact retain_moves_to_pending. Qed.
+Print Assumptions dropped_wals_removed.
